@@ -403,6 +403,42 @@ func c02HistoryRemovals(g *Gen) {
 	g.Note("history_removal_cases", n)
 }
 
+// c02MtimeRange: modification times over the whole range a Linux file system holds — before the
+// epoch (negative nanoseconds, whole seconds and with a sub-second part), at and next to the
+// epoch, next to the smallest ext4 holds (its very first second keeps no sub-second part) and the largest int64 — on files,
+// symbolic links, fifos and (not compared, but set) directories: what lands is exactly what was
+// sent, so the synchronisation of the unchanged source finds nothing to do.
+func c02MtimeRange(g *Gen) {
+	times := []int64{-1, -999999999, -1000000000, -1000000001, -1500000000, -86400_123456789, -2147483647_000000000, -2147483646_500000001,
+		0, 1, 999999999, 1000000000, 9223372036_854775807, 4102444800_000000001}
+	n := 0
+	for i, t1 := range times {
+		t2 := times[(i+5)%len(times)]
+		mk := func(t int64) []flatEntry {
+			return []flatEntry{
+				{&types.Stat{Path: "d", Mode: uint32(os.ModeDir | 0755), ModTime: t}, nil},
+				{&types.Stat{Path: "d/f", Mode: 0644, ModTime: t}, []byte("f")},
+				{&types.Stat{Path: "d/l", Mode: uint32(os.ModeSymlink | 0777), Linkname: "f", ModTime: t}, nil},
+				{&types.Stat{Path: "d/p", Mode: uint32(os.ModeNamedPipe | 0600), ModTime: t}, nil},
+				{&types.Stat{Path: "k", Mode: 0644, ModTime: 1600000009e9}, []byte("keep")},
+			}
+		}
+		if c02EmitHistory(g, nil, mk(t1), mk(t2), "history-mtime-range") {
+			n++
+		}
+		if c02EmitHistory(g, mk(t2), mk(t1), mk(t1), "history-mtime-range") {
+			n++
+		}
+		if c02EmitResync(g, 0, uint64(i%2), nil, mk(t1), "resync-mtime-range") {
+			n++
+		}
+		if c02EmitResync(g, 0, 0, mk(t2), mk(t1), "resync-mtime-range") {
+			n++
+		}
+	}
+	g.Note("mtime_range_cases", n)
+}
+
 func sortEntries(es []flatEntry) {
 	for i := 1; i < len(es); i++ {
 		for j := i; j > 0 && fsutil.ComparePath(es[j-1].St.Path, es[j].St.Path) > 0; j-- {
